@@ -3642,7 +3642,9 @@ private:
 
     basic_block_t &cur = get_node(curId);
 
-    if (has_one_child(curId) && has_one_parent(curId)) {
+    // The entry block is never folded into its predecessor: it must
+    // remain the entry of the cfg (remove(entry) is an error).
+    if (curId != m_entry && has_one_child(curId) && has_one_parent(curId)) {
       basic_block_t &parent = get_parent(curId);
       basic_block_t &child = get_child(curId);
 
